@@ -134,7 +134,7 @@ template <class Mesh> std::string HistRun<Mesh>::compare_decoded(const IFile &f,
         ++expected;
         const IProp *p = find(mp.kind, mp.name, tname[mp.type]);
         if (!p) return "tracked property '" + mp.name + "' not in the directory";
-        auto canon = [&](int n) -> std::string { switch (mp.type) { case TInt: return Canon<int32_t>::enc(n); case TBool: return Canon<bool>::enc(n & 1); case TDouble: return Canon<double>::enc(n + 0.5); case TString: return "s" + std::to_string(n); default: return Canon<Vec3d>::enc(Render<Vec3d>::make(n)); } };
+        auto canon = [&](int n) -> std::string { switch (mp.type) { case TInt: return Canon<int32_t>::enc(n); case TBool: return Canon<bool>::enc(n & 1); case TDouble: return Canon<double>::enc(n + 0.5); case TString: return Render<std::string>::make(n); default: return Canon<Vec3d>::enc(Render<Vec3d>::make(n)); } };
         std::string d = canon(mp.defn);
         if (mp.type == TString) { std::string e = Canon<uint32_t>::enc((uint32_t)d.size()) + d; if (p->def != e) return "default of '" + mp.name + "'"; }
         else if (p->def != d) return "default of '" + mp.name + "'";
